@@ -19,7 +19,7 @@ from .program import ClassInfo, FuncInfo, Unit, norm
 SAFE_METHODS = {
     dict: {"items", "keys", "values", "get", "copy", "update", "setdefault", "pop", "clear"},
     list: {"append", "extend", "copy", "index", "count", "pop", "remove", "insert", "clear", "reverse", "sort"},
-    str: {"format", "title", "startswith", "endswith", "lower", "upper", "join", "replace", "split", "strip", "lstrip", "rstrip", "find", "isdigit", "removeprefix", "removesuffix", "zfill", "isalpha", "isalnum", "partition", "rpartition", "rfind", "index", "count", "isidentifier"},
+    str: {"encode", "format", "title", "startswith", "endswith", "lower", "upper", "join", "replace", "split", "strip", "lstrip", "rstrip", "find", "isdigit", "removeprefix", "removesuffix", "zfill", "isalpha", "isalnum", "partition", "rpartition", "rfind", "index", "count", "isidentifier"},
     tuple: {"index", "count"},
     set: {"add", "union", "copy", "difference", "intersection", "issubset", "issuperset", "isdisjoint", "symmetric_difference", "update", "discard", "remove", "pop", "difference_update", "intersection_update", "symmetric_difference_update", "clear"},
     frozenset: {"union", "copy", "difference", "intersection", "issubset", "issuperset", "isdisjoint", "symmetric_difference"},
@@ -120,10 +120,16 @@ EXTERNAL_CONSTANTS = {
 
 
 class FuncRef:
-    """A package function used as a value (e.g. handed to map)."""
+    """A package function used as a value (e.g. handed to map). ``raw``: the undecorated function (what a decorator
+    receives as its argument)."""
 
-    def __init__(self, fn: FuncInfo):
+    def __init__(self, fn: FuncInfo, raw: bool = False):
         self.fn = fn
+        self.raw = raw
+
+    @property
+    def __name__(self):
+        return self.fn.node.name
 
 
 class Closure:
@@ -282,6 +288,7 @@ class Interp:
         self.module_consts: Dict[Tuple[str, str], Any] = {}
         self.module_envs: Dict[str, Dict[str, Any]] = {}
         self.missing_attr_raises = False  # stand-ins that are complete: a missing attribute is an AttributeError
+        self.apply_decorators = False  # evaluate decorators that are functions of the package (opt-in)
 
     # ------------------------------------------------------------------ calling
     def bind(self, fn: FuncInfo, args: Sequence[Any], kwargs: Dict[str, Any], selfobj=None, defaults: Optional[Dict[str, Any]] = None) -> Dict[str, Any]:
@@ -333,6 +340,7 @@ class Interp:
         ev.globals_env = self.module_globals.setdefault(fn.unit.modname, {})
         ev.on_name = self.on_name
         ev.on_def = self.on_def
+        ev.inplace_ops = self.apply_decorators
         return ev
 
     def on_def(self, ev, node: ast.FunctionDef):
@@ -350,6 +358,8 @@ class Interp:
         return Closure(nested, ev.env, defaults)
 
     def on_name(self, ev, e: ast.Name):
+        if self.apply_decorators and e.id in ("setattr", "getattr", "delattr") and e.id not in ev.env and getattr(getattr(e, "_parent", None), "func", None) is not e:
+            return {"setattr": setattr, "getattr": getattr, "delattr": delattr}[e.id]  # a builtin handed on as a value
         sym = self.prog.resolve(ev.fn.unit, e.id)
         if isinstance(sym, FuncInfo) and (sym.qualname in self.follow or sym.qualname in self.stubs):
             return FuncRef(sym)
@@ -364,10 +374,17 @@ class Interp:
         if got is NotImplemented and sym is None:
             # a module-level table imported from another module of the package (from .annotations import excludes)
             target = ev.fn.unit.imports.get(e.id)
-            if target:
+            hops = 0
+            while target and hops < 5:
+                # follow re-exports (from ..medium import sbo_terms -> medium/__init__ -> .annotations)
                 mod, _, attr = target.rpartition(".")
-                if mod in self.prog.units and attr in self.prog.units[mod].globals:
+                hops += 1
+                if mod not in self.prog.units:
+                    break
+                if attr in self.prog.units[mod].globals:
                     got = self._global_value(self.prog.units[mod], attr)
+                    break
+                target = self.prog.units[mod].imports.get(attr)
         return got
 
     def _global_value(self, unit, name: str):
@@ -477,14 +494,33 @@ class Interp:
         if isinstance(target, FuncRef):
             if target.fn.qualname in self.stubs:
                 return self.stubs[target.fn.qualname](self, ev, node, list(args), dict(kwargs))
-            return self.call(target.fn, args, kwargs)
+            if self.apply_decorators and target.fn.is_method and not target.fn.is_static and not target.fn.is_classmethod and args:
+                # an unbound method used as a function: f(obj, ...)
+                return self.call(target.fn, list(args)[1:], kwargs, selfobj=args[0], _raw=target.raw)
+            return self.call(target.fn, args, kwargs, _raw=target.raw)
         if isinstance(target, LocalFunc) and ev is not None:
             return ev.apply_local(target, list(args), dict(kwargs))
         if isinstance(target, self.native) and callable(target):
             return self._native_call(target, list(args), dict(kwargs), node)
-        raise Unknown("call of a value that is not a function of the package")
+        import types as _types
 
-    def call(self, fn: FuncInfo, args: Sequence[Any] = (), kwargs: Optional[Dict[str, Any]] = None, selfobj=None, outer_env: Optional[Dict[str, Any]] = None, defaults: Optional[Dict[str, Any]] = None):
+        if isinstance(target, (_types.MethodType, _types.BuiltinMethodType)) and isinstance(getattr(target, "__self__", None), self.native + (set, dict, list)):
+            # a bound method of a stand-in (or of a plain container) kept as a value: partial(model.reactions.__isub__, ...)
+            return self._native_call(target, list(args), dict(kwargs), node)
+        if target in (setattr, delattr, getattr) and args and isinstance(args[0], self.native):
+            return self._native_call(target, list(args), dict(kwargs), node)
+        raise Unknown(f"call of a value that is not a function of the package: {type(target).__name__} {target!r:.60}")
+
+    def call(self, fn: FuncInfo, args: Sequence[Any] = (), kwargs: Optional[Dict[str, Any]] = None, selfobj=None, outer_env: Optional[Dict[str, Any]] = None, defaults: Optional[Dict[str, Any]] = None, _raw: bool = False):
+        if self.apply_decorators and not _raw and fn.decorators:
+            # decorators that are functions of the package (util.context.resettable) are evaluated: the decorator is
+            # called with the undecorated function and the wrapper it returns is called in its place
+            for d in reversed(fn.decorators):
+                sym = self.prog.resolve(fn.unit, d.split("(")[0])
+                if isinstance(sym, FuncInfo) and sym.qualname in self.follow and sym.qualname not in self.stubs:
+                    wrapper = self.call(sym, [FuncRef(fn, raw=True)], {})
+                    full = ([selfobj] if (fn.is_method and not fn.is_static) else []) + list(args)
+                    return self.call_value(wrapper, full, dict(kwargs or {}), None, fn.node)
         if fn.decorators and any(d.split("(")[0].split(".")[-1] in ("lru_cache", "cache") for d in fn.decorators):
             # functools' caches hand the *same object* back for equal arguments, for the lifetime of the process
             key = (fn.qualname, tuple(args), tuple(sorted((kwargs or {}).items())), id(selfobj) if selfobj is not None else None)
@@ -530,6 +566,10 @@ class Interp:
                 stub = self.stubs[sym]
                 return ExtFunc(lambda *a, **k: stub(self, ev, e, list(a), k), sym)
         base = ev.eval(e.value)
+        if isinstance(base, FuncRef) and e.attr in ("__name__", "__qualname__"):
+            return base.fn.node.name
+        if self.apply_decorators and type(base) in (set, dict, list) and e.attr in SAFE_METHODS[type(base)] and getattr(getattr(e, "_parent", None), "func", None) is not e:
+            return getattr(base, e.attr)  # a bound method of a plain container kept as a value: partial(gene._reaction.add, r)
         if isinstance(base, self.native) or (isinstance(base, type) and issubclass(base, self.native)):
             try:
                 return getattr(base, e.attr)
@@ -716,6 +756,15 @@ class Interp:
         if isinstance(f, ast.Name) and f.id == "format" and "format" not in ev.env:
             args, kwargs = self.args_of(ev, c)
             return format(*args)
+        if isinstance(f, ast.Name) and f.id == "filter" and len(c.args) == 2 and "filter" not in ev.env:
+            target = ev.eval(c.args[0])
+            items = ev.eval(c.args[1])
+            if isinstance(items, Opaque):
+                raise Unknown("filter over an opaque iterable")
+            if target is None:
+                return [x for x in list(items) if x]
+            if isinstance(target, (FuncRef, PartialRef, Closure, LocalFunc)):
+                return [x for x in list(items) if self.call_value(target, [x], {}, ev, c)]
         if isinstance(f, ast.Name) and f.id == "map" and len(c.args) == 2:
             target = ev.eval(c.args[0])
             if isinstance(target, (FuncRef, PartialRef, Closure)):
@@ -776,6 +825,9 @@ class RealMethods:
     _setters: Dict[str, Any] = {}
     _it = None
 
+    _PROTOCOL = frozenset({"__init__", "__new__", "__class__", "__dict__", "__getattribute__", "__setattr__", "__delattr__", "__call__", "__hash__", "__eq__", "__ne__", "__repr__", "__str__",
+                           "__reduce__", "__reduce_ex__", "__getstate__", "__setstate__", "__copy__", "__deepcopy__", "__sizeof__", "__dir__", "__init_subclass__", "__subclasshook__", "__format__", "__doc__", "__module__", "__weakref__"})
+
     def __getattribute__(self, name):
         if not (name.startswith("__") and name.endswith("__")):
             cls = type(self)
@@ -783,7 +835,24 @@ class RealMethods:
                 return cls._it.call(cls._getters[name], [], {}, selfobj=self)
             if name in cls._methods:
                 return _BoundReal(cls._it, cls._methods[name], self)
+        elif name not in RealMethods._PROTOCOL:
+            cls = type(self)
+            if name in cls._methods:
+                # an operator method of the real class taken as a value (partial(self.__imul__, ...))
+                return _BoundReal(cls._it, cls._methods[name], self)
         return object.__getattribute__(self, name)
+
+    def __str__(self):
+        cls = type(self)
+        if "__str__" in cls._methods:
+            return cls._it.call(cls._methods["__str__"], [], {}, selfobj=self)
+        return object.__repr__(self)
+
+    def __call__(self, *a, **k):
+        cls = type(self)
+        if "__call__" not in cls._methods:
+            raise TypeError(f"{cls.__name__} object is not callable")
+        return cls._it.call(cls._methods["__call__"], list(a), dict(k), selfobj=self)
 
     def __setattr__(self, name, value):
         cls = type(self)
@@ -831,4 +900,24 @@ def real_methods_class(name: str, prog, classinfo, it, bases=(), skip=()):
                 elif mname not in getters:
                     methods.setdefault(mname, fn)
         chain.extend(b for b in ci.bases if isinstance(b, ClassInfo))
-    return type(name, tuple(bases) + (RealMethods,), {"_methods": methods, "_getters": getters, "_setters": setters, "_it": it})
+    ns = {"_methods": methods, "_getters": getters, "_setters": setters, "_it": it}
+    # class-level constants (KIND_TYPES = (...)): literal values become attributes of the stand-in class
+    for ci in reversed(_mro_of(classinfo)):
+        for attr, node in ci.class_attrs.items():
+            try:
+                ns.setdefault(attr, ast.literal_eval(node))
+            except (ValueError, SyntaxError, TypeError):
+                pass
+    return type(name, tuple(bases) + (RealMethods,), ns)
+
+
+def _mro_of(classinfo):
+    out, todo, seen = [], [classinfo], set()
+    while todo:
+        ci = todo.pop(0)
+        if id(ci) in seen:
+            continue
+        seen.add(id(ci))
+        out.append(ci)
+        todo.extend(b for b in ci.bases if isinstance(b, ClassInfo))
+    return out
